@@ -424,6 +424,248 @@ def gen_biglist_script(rng, n):
     return ops
 
 
+# ---------------------------------------------------------------------------- CRC-32C and colliding keys
+CRC_POLY = 0x1EDC6F41
+
+
+def crc32c_table():
+    """The 256 entries of crc32c_table[] of vnaproperty.c, computed from the polynomial (MSB first)."""
+    t = []
+    for i in range(256):
+        v = i << 24
+        for _ in range(8):
+            v = ((v << 1) & 0xFFFFFFFF) ^ (CRC_POLY if v & 0x80000000 else 0)
+        t.append(v)
+    return t
+
+
+_CRC_T = crc32c_table()
+
+
+def crc32c(data, value=0xFFFFFFFF):
+    """crc32c(-1, data, len) of src/vnaproperty.c: MSB first, no final inversion."""
+    for c in data:
+        value = ((value << 8) & 0xFFFFFFFF) ^ _CRC_T[(value >> 24) ^ c]
+    return value
+
+
+def parse_c_crc_table(repo):
+    """The entries of crc32c_table[] as written in the C source (raises when the table is not found)."""
+    import re
+    txt = open(repo + "/src/vnaproperty.c").read()
+    m = re.search(r"static\s+uint32_t\s+crc32c_table\[\]\s*=\s*\{(.*?)\};", txt, re.S)
+    if m is None:
+        raise RuntimeError("crc32c_table[] not found in src/vnaproperty.c")
+    vals = [int(x, 16) for x in re.findall(r"0x[0-9a-fA-F]+", m.group(1))]
+    if len(vals) != 256:
+        raise RuntimeError("crc32c_table[] has %d entries" % len(vals))
+    return vals
+
+
+_KEY_ALPHA = b"abcdefghijklmnopqrstuvwxyzABCDEFGHIJKLMNOPQRSTUVWXYZ0123456789_"
+
+
+def _rand_key(rng, n):
+    return bytes([rng.choice(b"abcdefghijklmnopqrstuvwxyz")] + [rng.choice(_KEY_ALPHA) for _ in range(n - 1)])
+
+
+def colliding_keys(rng, modulus, groups=2, per_group=4, pool=None, residue=None):
+    """`groups` lists of `per_group` distinct identifier-like keys whose CRC-32C agree modulo `modulus`
+    (so they share a chain in every table whose size divides `modulus`)."""
+    by = {}
+    out = []
+    tries = 0
+    while len(out) < groups and tries < 400000:
+        tries += 1
+        k = _rand_key(rng, rng.randint(2, 6))
+        r = crc32c(k) % modulus
+        if residue is not None and r != residue:
+            continue
+        l = by.setdefault(r, [])
+        if k not in l:
+            l.append(k)
+        if len(l) == per_group:
+            out.append(list(l))
+            by[r] = []
+            if residue is not None:
+                by.pop(r, None)
+    return out
+
+
+def full_collisions(rng, pairs=2, budget=260000):
+    """Pairs of distinct keys with the SAME 32-bit CRC-32C (map_compare_keys then falls back to strcmp):
+    birthday search over random 6-character identifiers."""
+    seen = {}
+    out = []
+    for _ in range(budget):
+        k = _rand_key(rng, 6)
+        h = crc32c(k)
+        o = seen.get(h)
+        if o is None:
+            seen[h] = k
+        elif o != k:
+            out.append((o, k))
+            if len(out) >= pairs:
+                break
+    return out
+
+
+def gen_collision_map_script(rng, full_pairs=()):
+    """One map whose keys collide in CRC-32C: groups agreeing modulo 8 / 16 / 32 (the sizes of the
+    parameter hash) and modulo 11 / 33 / 99 (the sizes the property map really takes: 11, then
+    (count + 1) * 3 / 2), optionally pairs with identical 32-bit CRC; ascending, descending and
+    shuffled insertion, delete-then-reinsert, look-ups of present and absent colliding keys."""
+    keys = []
+    for mod, g, n in ((8, 1, 3), (16, 1, 3), (32, 1, 3), (11, 1, 4), (33, 1, 4), (99, 2, 5)):
+        for grp in colliding_keys(rng, mod, groups=g, per_group=n):
+            keys += grp
+    absent = []
+    for grp in colliding_keys(rng, 99, groups=1, per_group=3):
+        absent += grp
+    for a, b in full_pairs:
+        keys += [a, b]
+    keys = list(dict.fromkeys(keys))
+    absent = [k for k in absent if k not in keys]
+    order = rng.choice(["asc", "desc", "shuffle"])
+    ranked = sorted(keys, key=lambda k: (crc32c(k), k))
+    ins = ranked if order == "asc" else ranked[::-1] if order == "desc" else rng.sample(keys, len(keys))
+    pre = rng.choice([b"", b"m."])
+    ops = []
+    for k in ins:
+        ops.append(("set", pre + py_quote_key(k) + b"=" + k[:2]))
+    ops.append(("keys", pre + b"{}"))
+    for k in keys + absent:
+        ops.append(("get", pre + py_quote_key(k)))
+    dels = rng.sample(keys, len(keys) // 2)
+    for k in dels:
+        ops.append(("del", pre + py_quote_key(k)))
+    for k in absent:
+        ops.append(("del", pre + py_quote_key(k)))
+    for k in keys:
+        ops.append(("get", pre + py_quote_key(k)))
+    ops.append(("keys", pre + b"{}"))
+    for k in rng.sample(dels, len(dels)):
+        ops.append(("set", pre + py_quote_key(k) + b"=re"))
+    for k in keys:
+        ops.append(("get", pre + py_quote_key(k)))
+    ops.append(("keys", pre + b"{}"))
+    ops.append(("copyout", b"."))
+    return ops
+
+
+def gen_root_hash_case(rng, full_pairs=(), nkeys=80):
+    """Root-level API ops on one map (C side, each followed by the white-box op hdump) and the table
+    operations of HashModel.v they perform (model side):
+        set  K=v  -> map_subtree(add)     = hset K
+        get  K    -> map_subtree(no add)  = hlook K
+        del  K    -> map_subtree(no add), then map_delete when found = hlook K [, hdel K]
+    After every op the harness prints the digest of the root, which it takes through get_subtree of every
+    key: look-ups, which expand the table when count + 1 >= 2 * size; the model side therefore runs one
+    hlook of a present key after each op.
+    Returns (c_ops, m_ops, marks): marks[i] = (index of the model line carrying the found flag of C op i,
+    index of its last model line)."""
+    keys = []
+    for mod, g, n in ((11, 1, 4), (33, 1, 4), (99, 2, 5), (8, 1, 3), (32, 1, 3)):
+        for grp in colliding_keys(rng, mod, groups=g, per_group=n):
+            keys += grp
+    for a, b in full_pairs:
+        keys += [a, b]
+    keys += [k for k in HOSTILE_KEYS + PLAIN_KEYS if k]
+    while len(set(keys)) < nkeys:
+        keys.append(_rand_key(rng, rng.randint(1, 6)))
+    keys = list(dict.fromkeys(keys))
+    absent = [k for grp in colliding_keys(rng, 99, groups=1, per_group=3) for k in grp if k not in keys]
+    order = rng.choice(["asc", "desc", "shuffle"])
+    ranked = sorted(keys, key=lambda k: (crc32c(k), k))
+    ins = ranked if order == "asc" else ranked[::-1] if order == "desc" else rng.sample(keys, len(keys))
+    c_ops, m_ops, marks = [], [], []
+    present = []
+
+    def do(kind, k):
+        q = py_quote_key(k)
+        if kind == "set":
+            c_ops.append(("set", q + b"=v"))
+            m_ops.append(("hset", k))
+            if k not in present:
+                present.append(k)
+        elif kind == "get":
+            c_ops.append(("get", q))
+            m_ops.append(("hlook", k))
+        else:
+            c_ops.append(("del", q))
+            m_ops.append(("hlook", k))
+            if k in present:
+                m_ops.append(("hdel", k))
+                present.remove(k)
+        fi = len(m_ops) - 1 if kind != "del" or m_ops[-1][0] == "hlook" else len(m_ops) - 2
+        if present:
+            m_ops.append(("hlook", present[0]))
+        marks.append((fi, len(m_ops) - 1))
+    for i, k in enumerate(ins):
+        do("set", k)
+        r = rng.random()
+        if r < 0.25:
+            do("get", rng.choice(present))
+        elif r < 0.35:
+            do("get", rng.choice(absent))
+        elif r < 0.5 and len(present) > 2:
+            d = rng.choice(present)
+            do("del", d)
+            if rng.random() < 0.6:
+                do("set", d)
+        elif r < 0.55:
+            do("del", rng.choice(absent))
+        elif r < 0.65:
+            do("set", rng.choice(present))
+    for k in keys + absent:
+        do("get", k)
+    for d in rng.sample(present, len(present) // 2):
+        do("del", d)
+    for k in keys:
+        do("get", k)
+    return c_ops, m_ops, marks
+
+
+def run_hash_tie(c_cmd, m_cmd, cases, env):
+    """Runs the cases of gen_root_hash_case; returns (steps compared, first disagreement or None) where a
+    disagreement is (case index, C op index, what, C line, model line, stderr)."""
+    ctext = "".join("".join(op_text(o) + "\nhdump\n" for o in c) + "reset\n" for c, m, k in cases)
+    mtext = "".join("".join(op_text(o) + "\n" for o in m) + "hreset\n" for c, m, k in cases)
+    rc, cout, cerr = vplib.sh(c_cmd, input=ctext, timeout=600, env=env)
+    rm, mout, merr = vplib.sh(m_cmd, input=mtext, timeout=600)
+
+    def split(out, sep):
+        res, cur = [], []
+        for line in out.splitlines():
+            if line == sep:
+                res.append(cur)
+                cur = []
+            else:
+                cur.append(line)
+        res.append(cur)
+        return res
+    cres, mres = split(cout, "RESET"), split(mout, "HRESET")
+    steps = 0
+    for ci, (c, m, marks) in enumerate(cases):
+        cl = cres[ci] if ci < len(cres) else []
+        ml = mres[ci] if ci < len(mres) else []
+        for i, op in enumerate(c):
+            fi, li = marks[i]
+            if 2 * i + 1 >= len(cl) or li >= len(ml):
+                return steps, (ci, i, "missing output (C rc=%d, model rc=%d)" % (rc, rm), None, None, cerr[-2000:] + merr[-500:])
+            api, dump = cl[2 * i].split(" "), cl[2 * i + 1].split(" ")
+            mline = ml[li].split(" ")
+            steps += 1
+            if "!HT" in cl[2 * i]:
+                return steps, (ci, i, "table invariant broken on the C side", cl[2 * i], ml[li], cerr[-2000:])
+            if dump[2] != mline[1]:
+                return steps, (ci, i, "bucket contents differ", cl[2 * i + 1], ml[li], cerr[-2000:])
+            if op[0] in ("get", "del"):
+                if (api[0] == "0") != (ml[fi].split(" ")[0] == "1"):
+                    return steps, (ci, i, "found / not found differ", cl[2 * i], ml[fi], cerr[-2000:])
+    return steps, None
+
+
 # ---------------------------------------------------------------------------- classification
 def classify_descriptor(d):
     cls = []
